@@ -126,7 +126,7 @@ func (s *JavaAPIListener) EnterAnnotation(ctx *parser.AnnotationContext) {
 			}
 			if pair.Identifier().GetText() == "value" {
 				text := pair.ElementValue().GetText()
-				currentRestAPI.Uri = baseApiUrl + text[1:len(text)-1]
+				currentRestAPI.Uri = baseApiUrl + unquote(text)
 			}
 		}
 	}
@@ -141,16 +141,24 @@ func buildBaseApiUrlString(annotationName string, ctx *parser.AnnotationContext)
 				pair := valuePair.(*parser.ElementValuePairContext)
 				if pair.Identifier().GetText() == "value" {
 					text := pair.ElementValue().GetText()
-					baseApiUrl = text[1 : len(text)-1]
+					baseApiUrl = unquote(text)
 				}
 			}
 		} else if ctx.ElementValue() != nil {
 			text := ctx.ElementValue().GetText()
-			baseApiUrl = text[1 : len(text)-1]
+			baseApiUrl = unquote(text)
 		} else {
 			baseApiUrl = "/"
 		}
 	}
+}
+
+// unquote drops the first and the last character of a string literal's text; a shorter text (a one-letter constant) is kept
+func unquote(text string) string {
+	if len(text) < 2 {
+		return text
+	}
+	return text[1 : len(text)-1]
 }
 
 func addApiMethod(annotationName string) {
